@@ -19,6 +19,16 @@ Proof.
   destruct (call s c) as [s1|] eqn:Hc; [|discriminate]. eapply IH; [|eassumption]. eapply Hcall; eauto.
 Qed.
 
+Lemma loop_sched_ind2 (P : state -> Prop) call x now :
+  (forall s c t s1, P s -> ls (nd s x) = c :: t -> (agg (nd s c) <= now)%N -> call s c = Some s1 -> P s1) ->
+  forall k s s', P s -> loop_sched call k x now s = Some s' -> P s'.
+Proof.
+  intros Hcall. induction k as [|k IH]; intros s s' Hp H; [discriminate|]. simpl in H.
+  destruct (ls (nd s x)) as [|c t] eqn:Hl; [inversion H; subst; assumption|].
+  destruct (N.leb_spec (agg (nd s c)) now) as [Hle|Hgt]; [|inversion H; subst; assumption].
+  destruct (call s c) as [s1|] eqn:Hc; [|discriminate]. eapply IH; [|eassumption]. eapply Hcall; eauto.
+Qed.
+
 Lemma loop_recalc_ind (P : state -> N -> Prop) call x :
   (forall s c t mn s1 mn1, P s mn -> lr (nd s x) = c :: t -> call s c mn = Some (s1, mn1) -> P s1 mn1) ->
   forall k s mn s' mn', P s mn -> loop_recalc call k x s mn = Some (s', mn') -> P s' mn' /\ lr (nd s' x) = [].
@@ -180,8 +190,7 @@ Proof.
   - intros y HG Hv. destruct (Hs y) as (_&Hcy&_). destruct (Hsv y) as [_ Hvy]. rewrite Hcy. rewrite Hvy in Hv. now apply Hk2.
 Qed.
 
-Section Sweeps.
-  Variable gt : nat -> nat -> N -> N -> N * list cop.
+Section PulseSweep.
   Variable pl : nat -> nat -> N -> N -> list cop.
 
   (* ---------------------------------------------------------------- PulseAux *)
@@ -234,6 +243,11 @@ Section Sweeps.
       + right. now apply (wf_root _ _ (c_wf _ Hc)).
       + apply Hk2; [|assumption]. tauto.
   Qed.
+
+End PulseSweep.
+
+Section Sweeps.
+  Variable gt : nat -> nat -> N -> N -> N * list cop.
 
   (* ---------------------------------------------------------------- GetPulseTimeAux, GetPulseTime() performing no operations *)
 
@@ -370,7 +384,7 @@ Section Sweeps.
     { unfold P. split; [assumption|]. split; [|split; [|split; [assumption|split; [|split]]]].
       - intro y. destruct (Hst1 y) as (H1&_&_&_&_&H2). auto.
       - intros z Hz. assert (z <> x) by (intro; subst; apply Hz; constructor).
-        rewrite Ho1 by assumption. repeat split.
+        unfold same_fields. rewrite Ho1 by assumption. repeat split.
       - now destruct (Hst1 x) as (_&?&_).
       - apply N.le_refl.
       - intros B HB _. exact HB. }
@@ -430,7 +444,7 @@ Section Sweeps.
     - rewrite Hmn'. set (a := agg (nd s' x)) in *.
       assert (HB : (N.min mn a <= mn2)%N).
       { apply HQ2; [apply N.le_min_l|]. intros c Hpc Hsuc. etransitivity; [apply N.le_min_r|].
-        unfold a. rewrite Ha'. etransitivity; [apply N.le_min_r|].
+        rewrite Ha'. etransitivity; [apply N.le_min_r|].
         destruct Hsuc as [Hsc|Huc].
         - pose proof (wf_par _ _ Hwf2 c x (fun F => F) Hpc) as Hin. rewrite Hsc in Hin.
           specialize (Hin ltac:(discriminate)). simpl in Hin.
